@@ -48,6 +48,19 @@ def gen(tier, rng, shard, nshards):
             if all(p is not None for p in left + right):
                 node = {"k": "Product", "via": S.pick(rng, ["fn", "fn", "ctor"]),
                         "args": [{"k": "Kronecker", "via": "ctor", "args": left}, {"k": "Kronecker", "via": "ctor", "args": right}]}
+        if rng.random() < 0.04:
+            # directed: nested scalar multiples whose scalars are each representable while their *product* is not, on an operator
+            # whose entries compensate (the represented matrix is finite: (c1 c2) A must not be formed as (c1 c2) first)
+            dt_ = S.pick(rng, ["f4", "c8", "f8", "c16"])
+            unit, c1, c2 = S.pick(rng, {"f4": [(1e-15, 1e20, 1e20), (1e30, 1e-25, 1e-25)], "c8": [(1e-15, 1e20, 1e20), (1e30, 1e-25, 1e-25)],
+                                        "f8": [(1e-150, 1e200, 1e200), (1e300, 1e-200, 1e-200)], "c16": [(1e-150, 1e200, 1e200), (1e300, 1e-200, 1e-200)]}[dt_])
+            mm, nn = int(rng.integers(1, 5)), int(rng.integers(1, 5))
+            leaf = {"k": S.pick(rng, ["Dense", "Generic"]), "shape": [mm, nn], "dt": dt_, "seed": S.seed(rng), "unit": unit}
+            if rng.random() < 0.3:
+                leaf = {"k": "Product", "via": "ctor", "args": [{"k": "Diagonal", "n": mm, "dt": dt_, "seed": S.seed(rng), "nonzero": True}, leaf]}
+            node = {"k": "Scaled", "c": c2, "side": S.pick(rng, ["l", "r"]), "arg": {"k": "Scaled", "c": c1, "side": S.pick(rng, ["l", "r"]), "arg": leaf}}
+            yield {"spec": node, "xdt": dt_, "xcols": int(S.pick(rng, [0, 1, 2])), "xseed": S.seed(rng)}
+            continue
         xdt = S.pick(rng, S.ALL_DT) if dtm.startswith("mixed") else S.pick(rng, [dtm, dtm, dtm] + S.ALL_DT)
         yield {"spec": node, "xdt": xdt, "xcols": int(S.pick(rng, [0, 1, 2, 3, 5])), "xseed": S.seed(rng)}
 
